@@ -30,6 +30,35 @@ def tlc_check(cfg, wd, workers=8):
     return rc, out, st, tr
 
 
+def max_scale(total, ops):
+    """The largest power of two by which a walk can be multiplied with every number the rules compute on the way (totals,
+    counters, arguments, and the sum an increment forms before it is capped) still inside int64.  The rules are simulated as
+    if every call were applied (a dropped call only keeps older, smaller-or-equal values alive)."""
+    cur, trig, m = 0, total > 0, abs(total)
+    for (op, a, fl) in ops:
+        m = max(m, abs(a))
+        if op == "incr":
+            m = max(m, abs(cur + a))
+            cur = total if trig and cur + a >= total else cur + a
+        elif op == "setcur" and a >= 0:
+            cur = total if trig and a >= total else a
+        elif op == "settotal" and not trig:
+            total = cur if a < 0 else a
+            if fl:
+                cur, trig = total, True
+        elif op == "trigger" and not trig:
+            trig = True
+            if cur >= total:
+                cur = total
+        elif op == "abort":
+            trig = True
+        m = max(m, abs(cur), abs(total))
+    sc = 1 << 62
+    while m * sc > (1 << 63) - 1:
+        sc >>= 1
+    return sc
+
+
 IND_OBLIGATIONS = [("IndInit", "IndInv", 1), ("UInit", "IndInv", 0)] + [("IndInit", a, 1) for a in (
     "ActCompletedStable", "ActAbortedStable", "ActNoCompletionWithoutTrigger", "ActAbortNoEffectOnCompleted", "ActAdoptKeepsCounter",
     "ActSetTotalIgnoredWhenTriggered", "ActTerminalForEver", "ActIncrementAccumulates", "ActNegativeSetCurrentIgnored")]
@@ -203,9 +232,11 @@ def run(prop, tier, seed):
                 l2, s = rng.choice(nx)
                 cont.append(l2)
             ops = ops + cont
-            # one walk in five is executed with every number multiplied by 2^33 or 2^59 (the largest power of two that keeps
-            # every sum of the bounded walk inside int64): the rules are homogeneous, BarInd.tla has them for every integer
+            # one walk in five is executed with every number multiplied by 2^33 or by the largest power of two that keeps
+            # every number of this walk inside int64 (2^59 .. 2^62): the rules are homogeneous, BarInd.tla has them for every integer
             scale = rng.choice(SCALES)
+            if scale == 1 << 59:
+                scale = max_scale(proj[root[f]]["total"], ops)
             seqs.append({"id": i, "total": proj[root[f]]["total"], "scale": scale, "ops": [{"op": o, "a": a, "f": fl} for (o, a, fl) in ops]})
             meta[i] = (root[f], ops)
         obs = run_go(binary, wd, seqs, core.NCPU)
@@ -237,7 +268,7 @@ def run(prop, tier, seed):
                "evaluations": len(seqs), "refill_marks_observed": sum(1 for s in seqs for o in obs[s["id"]] if len(o) > 3 and o[3] >= 0), "distinct_nontrivial": len({json.dumps(s["ops"]) + str(s["total"]) for s in seqs if len(s["ops"]) > 1}),
                "rule": "every transition of BarState.tla emitted by TLC (quick: a seeded sample of %d of %d) is replayed on a real bar as "
                        "BFS path + edge + up to 3 random further edges; non-trivial = at least two calls" % (limit, len(cand)),
-               "scaled_walks": sum(1 for s in seqs if s["scale"] > 1), "scales": sorted(set(SCALES)),
+               "scaled_walks": sum(1 for s in seqs if s["scale"] > 1), "scales": sorted({s["scale"] for s in seqs}),
                "unbounded_obligations_discharged_by_apalache": proved,
                "exhaustive": tier == "thorough", "edges": len(cand), "spec_states": len(proj),
                "checker_cmd": "tlc MCBarState.tla (BarState.cfg, BarStateEdges.cfg); apalache-mc check BarInd.tla (inductive invariant + action properties, unbounded integers); harness.test TestBarSeq"}
